@@ -10,7 +10,8 @@ def run(ctx, rep):
         "propagation_delay is written only from the accumulator, which changes only by saturating_add of an unsigned value (non-decreasing in processing order)",
         "the DC reference is the first element with dc_support().any(); write_dc_parameters writes now - dc_receive_time to DcSystemTimeOffset and propagation_delay to DcSystemTimeTransmissionDelay",
     ]
-    rep.undecided += ["the per-topology delay formulas and the parent search as values"]
+    rep.decided += ["the parent search: the previous device is the parent unless it is a line end; otherwise the nearest *preceding* junction (search over the reversed prefix) that still has an unassigned downstream port (nested, fully populated forks are skipped)"]
+    rep.undecided += ["the per-topology delay formulas as values"]
     rep.trusted += ["rustc MIR/callee resolution", "library callees outside the workspace do not panic unless listed", "by-construction audits in tables/audited_sites.json"]
     for cfg in ctx.configs():
         prog = ctx.prog(cfg)
@@ -24,6 +25,7 @@ def run(ctx, rep):
         rep.floor("C17 tainted sinks" + tag, len({s.key for s in sinks}), 8)
         accumulator(prog, rep, tag)
         registers(prog, rep, tag)
+        parent_search(prog, rep, tag)
 
 
 def accumulator(prog, rep, tag):
@@ -115,3 +117,54 @@ def registers(prog, rep, tag):
             if g.is_closure and g.calls_to("SubDevice::dc_support") and [x for x in g.calls() if (x.decl_s or "").endswith("::any")]:
                 ok = True
     rep.ob(P, "reference-is-first-dc" + tag, ok and bool(finds), "the reference clock is found with iter().find(|s| s.dc_support().any()): the first DC-capable SubDevice", loc=cd.span)
+
+
+def parent_search(prog, rep, tag):
+    """'derived from that device's true upstream neighbour': in discovery (depth first) order the upstream
+    neighbour of a device that follows a line end is the nearest earlier junction that still has a
+    downstream port without a child.  Necessary structure: the search runs backwards from the device, and
+    its predicate looks at the assignment state of the candidate's ports, not only at its port count."""
+    P = "C17.parent"
+    b = prog.body("dc::find_subdevice_parent")
+    pr = Prov(b)
+    d = {}
+    finds = [c for c in b.calls() if (c.decl_s or "").split("::")[-1] in ("find", "rfind", "find_map", "position", "rposition")]
+    d["one-search"] = len(finds) == 1
+    if len(finds) == 1:
+        c = finds[0]
+        name = (c.decl_s or "").split("::")[-1]
+        recv = pr.of_operand(c.args[0])
+        backwards = name in ("rfind", "rposition") or has_root(recv, "call", "Iterator::rev") or "Rev<" in (c.t.get("self_ty") or "") or "Rev<" in (c.t.get("gargs") or "")
+        d["searches-backwards"] = bool(backwards)
+        d["over-the-preceding-devices"] = has_root(Prov(b, follow_all={"slice::iter", "Iterator::rev", "IntoIterator::into_iter", "Iterator::by_ref", "slice::split_last", "slice::split_first", "slice::get", "Index::index"}).of_operand(c.args[0]), "arg", 1)
+        # the predicate closure(s) of this function: junction test and free-port test
+        preds = [g for g in prog.group("dc::find_subdevice_parent") if g.is_closure and g.calls_to("Topology::is_junction")]
+        d["predicate:is-junction"] = len(preds) == 1
+        free = False
+        if len(preds) == 1:
+            # bodies reachable from the predicate closure itself (not from the enclosing function)
+            seen, todo = {preds[0].path: preds[0]}, [(preds[0], 0)]
+            while todo:
+                g, depth = todo.pop()
+                if depth >= 3:
+                    continue
+                for c in g.calls():
+                    t = prog.by_path.get(c.res) or prog.by_path.get(c.decl)
+                    if t is None:
+                        continue
+                    for h in prog.groups[t.root]:
+                        if h.path not in seen:
+                            seen[h.path] = h
+                            todo.append((h, depth + 1))
+            for g in seen.values():
+                if [a for a in q.field_accesses(g, "Port", "downstream_to") if a[2] in ("read", "addr")]:
+                    free = True
+        d["predicate:has-unassigned-port"] = free
+    # the line-end test that selects between "previous device" and "search"
+    le = [cd for cd in q.conds(b) if cd.kind == "call" and cd.call is not None and cd.call.is_("PartialEq::eq", "PartialEq::ne") and any(x[0] == "agg" and x[1] == "Topology" and x[2] == "LineEnd" for a in cd.call.args for x in pr.of_operand(a))]
+    d["line-end-test"] = len(le) == 1
+    if len(le) == 1 and len(finds) == 1:
+        is_eq = le[0].call.is_("PartialEq::eq")
+        on_le = le[0].true_target() if is_eq else le[0].false_target()
+        d["search-only-after-line-end"] = finds[0].bb in q.edge_dominated(b, le[0].bb, on_le)
+    rep.ob(P, "nearest-junction-with-free-port" + tag, all(d.values()), "find_subdevice_parent: previous device unless it is a LineEnd, else the nearest preceding junction with an unassigned downstream port; %s" % d, loc=b.span)
